@@ -215,7 +215,13 @@ func execFork(p *Process, argv []string) error {
 	}*/
 
 	err := cmd.Wait()
-	if err != nil && !strings.HasPrefix(err.Error(), "signal:") && err.Error() != "wait: no child processes" {
+	if err != nil && strings.HasPrefix(err.Error(), "signal:") {
+		// a child killed by a signal is not reported as an error, but it has not
+		// succeeded either: give it a non-zero exit number
+		p.ExitNum = 1
+		return nil
+	}
+	if err != nil && err.Error() != "wait: no child processes" {
 		//mxdtR.Close()
 		debug.Log(err)
 		return err
